@@ -337,9 +337,11 @@ fn gen_universe(rng: &mut Rng, cfg: &Cfg, n_routes: usize) -> Universe {
     for &r in &routes {
         let nver = 1 + rng.below(2) as usize;
         for v in 0..nver {
-            let off: i64 = match rng.below(10) {
+            let off: i64 = match rng.below(16) {
                 0 => thr as i64 - 1, 1 => thr as i64, 2 => thr as i64 + 1, 3 => (thr + mind) as i64 + 1, 4 => (thr + rf) as i64 + 1,
-                5 => -10, 6 => 1, 7 => (thr + 2 * rf + 50) as i64, 8 => (thr + mind / 2 + 3) as i64, _ => (3 * rf + thr + 1000) as i64,
+                5 => -10, 6 => 1, 7 => (thr + 2 * rf + 50) as i64, 8 => (thr + mind / 2 + 3) as i64,
+                9 | 10 => (thr + rf / 2 + 7) as i64, 11 => (2 * thr + 90) as i64,
+                _ => (3 * rf + thr + 1000) as i64,
             } + if v > 0 { rng.range(1, 400) as i64 } else { 0 };
             let meta = !rng.chance(1, 8);
             paths.push(UPath { route: r, path: path_expiring(r, (T0 as i64 + off) as u64, meta), meta });
@@ -608,10 +610,20 @@ async fn gen_directed(k: usize) -> Option<Case> {
             let evs = vec![Ev::Tick { now: t(0), ans: Some(vec![0]) }, Ev::Send { now: t(1) }, Ev::Tick { now: t(30), ans: Some(vec![0]) }, Ev::Tick { now: t(60), ans: Some(vec![0]) }];
             run_case(cfg, u, Pol::None, "directed-idle-exit".into(), fixed(evs), &mut rng, 99).await
         }
+        // backoff ceiling above the expiry threshold: the slot's path expires between two failing ticks
+        11 => {
+            let mut cfg = cfg_default();
+            cfg.pc.min_expiry_threshold = secs(60); cfg.pc.fetch_failure_backoff.jitter_secs = 0.0; cfg.pc.max_idle_period = secs(100000);
+            let u = Universe { paths: vec![one(4, 500), one(0, 600), one(2, 9000)] };
+            let evs = vec![Ev::Tick { now: t(0), ans: Some(vec![0, 1, 2]) }, Ev::Send { now: t(1) }, Ev::Tick { now: t(440), ans: None }, Ev::Send { now: t(441) },
+                Ev::Tick { now: t(530), ans: None }, Ev::Send { now: t(599) }, Ev::Send { now: t(601) }, Ev::SendWait { now: t(664) },
+                Ev::Tick { now: t(665), ans: None }, Ev::Send { now: t(666) }];
+            run_case(cfg, u, Pol::None, "directed-backoff-outlasts-threshold".into(), fixed(evs), &mut rng, 99).await
+        }
         _ => None,
     }
 }
-const N_DIRECTED: usize = 11;
+const N_DIRECTED: usize = 12;
 
 fn emit(c: &Case, shards: &mut Shards, sum: &mut Summary, seen: &mut std::collections::HashSet<String>) {
     let evs = coq_list(c.evs.iter().map(|(e, o)| format!("({}, {})", e.coq(), o.coq())));
@@ -634,10 +646,56 @@ fn emit(c: &Case, shards: &mut Shards, sum: &mut Summary, seen: &mut std::collec
     shards.push(text);
 }
 
+/// `--mode match`: IssueKind::target_type + IssueMarkerTarget::matches_path on single paths
+fn main_match(out: &str, n: usize) {
+    let mut rng = Rng::new(seed_from_env() ^ 0x77);
+    let mut shards = Shards::new(out, "From Sci Require Import PathMgr.Cases. Open Scope N_scope.", "mcase", "verdicts_match", 150);
+    let mut sum = Summary::default();
+    let mut seen = std::collections::HashSet::new();
+    let mut paths: Vec<UPath> = vec![];
+    for r in 0..ROUTES.len() { for meta in [true, false] { paths.push(UPath { route: r, path: path_expiring(r, T0 + 1000, meta), meta }); } }
+    let mut issues: Vec<HookIssue> = ISSUE_POOL.to_vec();
+    // every interface of every route as interface-down; every transit with right and wrong ingress
+    for (first_eg, hops, last_in) in ROUTES {
+        issues.push(HookIssue::InterfaceDown { isd_asn: SRC.isd_asn(), interface_id: *first_eg });
+        issues.push(HookIssue::FirstHopUnreachable { isd_asn: SRC.isd_asn(), interface_id: *first_eg });
+        issues.push(HookIssue::InterfaceDown { isd_asn: DST.isd_asn(), interface_id: *last_in });
+        for (asn, i, e) in hops.iter() {
+            let a = ia(*asn as u64);
+            issues.push(HookIssue::InterfaceDown { isd_asn: a, interface_id: *i });
+            issues.push(HookIssue::InterfaceDown { isd_asn: a, interface_id: *e });
+            issues.push(HookIssue::ConnectivityDown { isd_asn: a, ingress: *i, egress: *e });
+            issues.push(HookIssue::ConnectivityDown { isd_asn: a, ingress: *e, egress: *i });
+            issues.push(HookIssue::ConnectivityDown { isd_asn: a, ingress: *i + 1, egress: *e });
+            issues.push(HookIssue::ConnectivityDown { isd_asn: SRC.isd_asn(), ingress: *i, egress: *first_eg });
+        }
+    }
+    let mut pairs: Vec<(usize, usize)> = vec![];
+    for i in 0..issues.len() { for p in 0..paths.len() { pairs.push((i, p)); } }
+    rng.shuffle(&mut pairs);
+    let u = Universe { paths: paths.clone() };
+    let lits = u.coq();
+    // one literal per path: split the printed list
+    let plit: Vec<String> = { let inner = &lits[1..lits.len() - 1]; inner.split("; mkPath ").enumerate().map(|(k, x)| if k == 0 { x.to_string() } else { format!("mkPath {x}") }).collect() };
+    for (i, p) in pairs.into_iter().take(n) {
+        let obs = issues[i].matches_path(&paths[p].path);
+        let text = format!("mkM {} ({}) {}", issue_coq(&issues[i]), plit[p], coq_opt(obs.map(|b| coq_bool(b).to_string())));
+        let human = format!("match {} on r{}{} => {:?}", issue_human(&issues[i]), paths[p].route, if paths[p].meta { "" } else { "nometa" }, obs);
+        sum.count(match obs { Some(true) => "matched", Some(false) => "unmatched", None => "notarget" });
+        if sum.samples.len() < 3 { sum.samples.push(human.clone()); }
+        sum.index.push(human);
+        seen.insert(text.clone());
+        shards.push(text);
+    }
+    shards.flush();
+    sum.write(out, shards.total, seen.len());
+}
+
 fn main() {
     silence_panics();
     let out = arg("--out").expect("--out");
     let n: usize = arg("--n").and_then(|s| s.parse().ok()).unwrap_or(200);
+    if arg("--mode").as_deref() == Some("match") { return main_match(&out, n); }
     let prop = arg("--prop").unwrap_or_else(|| "C05".into());
     let verdict_fn = match prop.as_str() { "C06" => "verdicts06", "C07" => "verdicts07", _ => "verdicts05" };
     let thorough = std::env::var("VERIF_TIER").map(|t| t == "thorough").unwrap_or(false);
